@@ -60,6 +60,21 @@ def generate(unit, repo='/repo', import_mode=False):
                          'ghost_tokens': sum(len(r) for r in G), 'erasure_exact': exact, 'edits': edits, 'renames': renames,
                          'snapshot_sha': hashlib.sha1(' '.join(X.strs(E)).encode()).hexdigest()[:12]})
         pieces.append((os_, oe, text, origin, path, rel))
+    g.opaque = []
+    for ent in unit.get('opaque', []):
+        rel, path = ent[0], ent[1]
+        try:
+            rsrc = open(os.path.join(repo, SRC, rel)).read()
+            rs, re_, rts = X.locate_fn(rsrc, path)
+            os_, oe, ots = X.locate_fn(ov, (ent[2] if len(ent) > 2 else {}).get('overlay', path))
+        except (X.LostAnchor, OSError) as e:
+            g.problems.append({'kind': 'lost-anchor', 'where': 'opaque', 'fn': path, 'detail': str(e)}); continue
+        rsig = X.simple_rewrites(X.normalize(rts[:X.body_open(rts, 0)]), unit.get('rewrite_opts'))
+        E, G = X.erase_fn(ots)
+        osig = E[:X.body_open(E, 0)]
+        same = X.strs(rsig) == X.strs(osig)
+        g.opaque.append({'fn': path, 'file': rel, 'line': rts[0].line, 'signature_matches_repo': same, 'real_sig': ' '.join(rsig) if not same else None, 'overlay_sig': ' '.join(osig) if not same else None})
+        if not same: g.problems.append({'kind': 'opaque-signature', 'fn': path, 'detail': 'real: %s | overlay: %s' % (' '.join(rsig), ' '.join(osig))})
     for ent in unit.get('items', []):
         rel, kw, name = ent[0], ent[1], ent[2]
         try:
@@ -238,7 +253,7 @@ def add_canaries(g):
                 if found is not None:
                     c = X.match_close(ts, found)
                     # only loops in statement position (next token is not an operator / `.`)
-                    if c + 1 < len(ts) and ts[c + 1] not in ('.', '?', ')', ',', 'else'):
+                    if c + 1 < len(ts) and ts[c + 1] not in ('.', '?', ')', ',', 'else') and not (ts[i] == 'loop' and ts[c + 1] == '}'):
                         ins.setdefault(c + 1, [])
                         ins[c + 1] = ins[c + 1] + can()
                     i = found + 1; continue
@@ -275,7 +290,7 @@ def run_unit(unit, repo='/repo', canary=True, keep=False, rlimit=None, workdir=N
     t0 = time.time()
     res = {'unit': unit['name'], 'status': 'ok', 'problems': [], 'failures': [], 'functions': [], 'wall_s': 0}
     g = generate(unit, repo)
-    res['report'] = g.report; res['items'] = g.items
+    res['report'] = g.report; res['items'] = g.items; res['opaque'] = g.opaque
     if g.problems:
         res['status'] = 'undecided'; res['problems'] = g.problems; res['wall_s'] = time.time() - t0; return res
     for r in g.report:
@@ -284,7 +299,7 @@ def run_unit(unit, repo='/repo', canary=True, keep=False, rlimit=None, workdir=N
     cdir = os.path.join(ROOT, '.cache'); cpath_ = os.path.join(cdir, '%s_%s.json' % (unit['name'], key))
     if os.environ.get('VX_NO_CACHE') != '1' and os.path.exists(cpath_) and not keep:
         try:
-            c = json.load(open(cpath_)); c['cached'] = True; c['report'] = res['report']; c['items'] = res['items']; return c
+            c = json.load(open(cpath_)); c['cached'] = True; c['report'] = res['report']; c['items'] = res['items']; c['opaque'] = res['opaque']; return c
         except Exception: pass
     d = workdir or tempfile.mkdtemp(prefix='vx_%s_' % unit['name'], dir=os.environ.get('VX_TMP', '/tmp'))
     os.makedirs(d, exist_ok=True)
